@@ -343,6 +343,22 @@ package traversal
 //@ pure func pathseg(p datamodel.Path, k mathint) datamodel.PathSegment
 //@ axiom resolve_step: forall v datamodel.Val, p datamodel.Path, k mathint :: 0 < k ==> resolveN(v, p, k) == derefall(stepval(resolveN(v, p, k - 1), pathseg(p, k - 1)))
 
+// The exported entry points resolve exactly the path given, from the node given; Focus hands the
+// callback the node the path resolved to.
+//@ func (Progress).Get(n, p) (r, err)
+//@   requires n != nil && prog.Cfg != nil && prog.Cfg.LinkSystem.DecoderChooser != nil && prog.Cfg.LinkSystem.HasherChooser != nil
+//@   before get assert[C14] carg1 == n && carg2 == p && !carg3
+//@   after get let got = result0
+//@   after get let goterr = result1
+//@   ensures[C14] r == got && err == goterr
+//@ func (Progress).Focus(n, p, fn) (err)
+//@   requires n != nil && fn != nil && prog.Cfg != nil && prog.Cfg.LinkSystem.DecoderChooser != nil && prog.Cfg.LinkSystem.HasherChooser != nil
+//@   before get assert[C14] carg1 == n && carg2 == p && carg3
+//@   after get let reached = result0
+//@   after get let geterr = result1
+//@   before fn assert[C14] geterr == nil && carg1 == reached
+//@   ensures[C14] geterr != nil ==> err == geterr
+
 //@ func (*Progress).get(n, p, trackProgress) (r, err)
 //@   requires prog != nil && n != nil && prog.Cfg != nil && prog.Cfg.LinkSystem.DecoderChooser != nil && prog.Cfg.LinkSystem.HasherChooser != nil
 //   (pathseg(p, k) names the k-th segment of the path value p: axioms cannot read the heap)
